@@ -10,7 +10,8 @@
    shaped          t has the fields tbl says; explicitly excluded fields duplicate a child's symbol
    table_complete  every symbol field is visited, every child field is forwarded (or excluded) *)
 From Coq Require Import List Bool NArith.
-From Storage Require Import Base.Bytes Ast.AstTable Ast.Visitor Ast.VisitorProofs Ast.VisitorGen Ast.VisitorInst Gen.GenAstTable.
+From Storage Require Import Base.Bytes Ast.AstTable Ast.Visitor Ast.VisitorProofs Ast.VisitorGen Ast.VisitorInst Gen.GenAstTable
+  Ast.PublicCfg Ast.PublicCfgProofs.
 Import ListNotations.
 
 (* ---- generic in the table ---- *)
@@ -52,7 +53,10 @@ Proof. exact single_nonpublic_rejected_lemma. Qed.
 Print Assumptions single_nonpublic_rejected.
 
 (* IsPublicSymbol: an element of a map symbol is public exactly when the map is (unless the
-   element was published by name); other dotted names and plain names only when listed *)
+   element was published by name); other dotted names and plain names only when listed.
+   [pub], [maps], [base] are symbol NAMES - what a query writes and what store.publicSymbols /
+   store.mapSymbols are indexed by.  The bucket KEY a symbol reads from (AddSymbolWithKey,
+   AddMapSymbol(name, type, key)) does not occur: see the cfg_ theorems below. *)
 Theorem map_element_public : forall pub maps base rest,
   before_dot base = None -> mem_str base maps = true -> mem_str (base ++ dot :: rest) pub = false ->
   is_public pub maps (base ++ dot :: rest) = is_public pub maps base.
@@ -68,6 +72,58 @@ Print Assumptions dotted_non_map_public.
 Theorem plain_public : forall pub maps x, before_dot x = None -> is_public pub maps x = mem_str x pub.
 Proof. exact plain_public_lemma. Qed.
 Print Assumptions plain_public.
+
+(* ---- public-ness is a matter of NAMES: the store configuration API (Ast/PublicCfg.v) ----
+   cfg_store     known symbol names, map symbols as (registered name, bucket key), public names
+   cfg_op        one API call: OAddPublic st name key (AddSymbol[WithKey], AddFkSymbol[WithKey], AddIdSymbol,
+                 AddPublicSetSymbol), OAddPrivate st name, OAddMap st name key, OMakePublic st name _, OGrant
+   cfg_run       the (parent, child) stores after a sequence of calls *)
+
+(* two configurations making the same calls with the same names have the same public symbols,
+   however the keys differ (no GrantSymbols: inheritMapSymbol re-registers a map under its key) *)
+Theorem cfg_public_is_by_name : forall p1 p2,
+  forallb (fun o => negb (op_is_grant o)) p1 = true ->
+  map op_forget_key p1 = map op_forget_key p2 ->
+  forall st x, cs_is_public (cfg_store_of (cfg_run p1) st) x = cs_is_public (cfg_store_of (cfg_run p2) st) x.
+Proof. exact cfg_public_is_by_name_lemma. Qed.
+Print Assumptions cfg_public_is_by_name.
+
+(* an element of a map symbol registered under the name m is public exactly when the NAME m is
+   listed public - whatever the key k of the map, and whatever else is called k *)
+Theorem cfg_map_element_public : forall s m k rest,
+  In (m, k) (cs_maps s) -> before_dot m = None ->
+  mem_str (m ++ dot :: rest) (cs_pub s) = false ->
+  cs_is_public s (m ++ dot :: rest) = mem_str m (cs_pub s).
+Proof. exact cfg_map_element_public_lemma. Qed.
+Print Assumptions cfg_map_element_public.
+
+(* MakeSymbolPublic of a name that is neither a registered map nor a resolvable symbol changes
+   nothing (publishing a map before AddMapSymbol has no effect) ... *)
+Theorem cfg_make_public_unknown_noop : forall s n linked,
+  mem_str n (cs_map_names s) = false -> cs_resolves s n linked = false ->
+  cs_make_public s n linked = s.
+Proof. exact cfg_make_public_unknown_noop_lemma. Qed.
+Print Assumptions cfg_make_public_unknown_noop.
+
+(* ... and after AddMapSymbol(m, _, k) it publishes every element of m *)
+Theorem cfg_make_public_after_add_map : forall s m k rest,
+  before_dot m = None ->
+  cs_is_public (cs_make_public (cs_set_map s m k) m false) (m ++ dot :: rest) = true.
+Proof. exact cfg_make_public_after_add_map_lemma. Qed.
+Print Assumptions cfg_make_public_after_add_map.
+
+(* GrantSymbols into a fresh child when every map of the parent has name = key: same symbol and
+   map names; listed public in the child iff a symbol / map name of the parent and public there.
+   PARTIAL: composite names published on their own are not handed down; a map with name <> key is
+   re-registered under its key (Examples: grant_renames_map_refuted) *)
+Theorem cfg_grant_by_name_partial : forall p,
+  (forall m k, In (m, k) (cs_maps p) -> m = k) ->
+  let c := cs_grant p cs_empty in
+  (forall x, mem_str x (cs_known c) = mem_str x (cs_known p)) /\
+  (forall x, mem_str x (cs_map_names c) = mem_str x (cs_map_names p)) /\
+  (forall x, mem_str x (cs_pub c) = (mem_str x (cs_known p) || mem_str x (cs_map_names p)) && cs_is_public p x).
+Proof. exact cfg_grant_by_name_partial_lemma. Qed.
+Print Assumptions cfg_grant_by_name_partial.
 
 (* the diagnostic list that drives the failing-input search names a broken obligation exactly
    when there is one *)
